@@ -28,6 +28,18 @@ package cmd
 //@   ensures validate_error_propagates: errSeen(dsl.Validate) ==> result2 != nil
 //@   ensures evolution_error_propagates: errSeen(dsl.ValidateEvolution) ==> result2 != nil
 //@   ensures validated_before_success: result2 == nil ==> called(dsl.Validate) && called(parseAndFlattenNamespaces)
+// A package manifest that names two previous versions alike is an error of the package (evolution diagnostics are
+// keyed by the label). The manifest is not rewritten while it is validated: the label of a version and the elements
+// of a version list are written only while the list is built (checked: no function stores to them otherwise).
+//@   requires packageInfo != nil
+//@   invariant 0: len(labels) == rangeindex + 1 && rangeindex + 1 <= old(len(packageInfo.Versions))
+//@   invariant 0: forall k in 0..len(labels) :: labels[k] == old(packageInfo.Versions[k].Label)
+//@   invariant 0: forall a in 0..rangeindex+1 :: forall b in 0..a :: old(packageInfo.Versions[a].Label != packageInfo.Versions[b].Label)
+//@   invariant 1: forall k in 0..rangeindex+1 :: labels[k] != version.Label
+//@   ensures duplicate_version_label_is_an_error: (exists a in 0..old(len(packageInfo.Versions)) :: exists b in 0..a :: old(packageInfo.Versions[a].Label == packageInfo.Versions[b].Label)) ==> result2 != nil
+//@ immutable packaging.Version.Label
+//@ immutable-family E#*packaging.Version
+//@ elems-nonnil *packaging.Version
 
 //@ func parseAndFlattenNamespaces
 //@   property C09,C11,C18
